@@ -106,7 +106,7 @@ func (propC08) Gen(r *Rng, tier string) *World {
 		for i := 0; i < ns; i++ {
 			switch x := r.Intn(10); {
 			case x < 7:
-				s := Step{Op: "compile", Expr: r.Intn(np), Mask: r.Intn(16), Arg: []string{"none", "0", "1", "2", "3", "4", "5"}[r.Intn(7)]}
+				s := Step{Op: "compile", Expr: r.Intn(np), Mask: r.Intn(16), Arg: []string{"none", "0", "1", "2", "3", "4", "5", "6", "7"}[r.Intn(9)]}
 				if r.P(0.08) {
 					s.Arg = "bad" + strconv.Itoa(r.Intn(5)) // a directive Compile must reject
 				}
@@ -131,7 +131,7 @@ func (propC08) Gen(r *Rng, tier string) *World {
 				script = append(script, Step{Op: "foreign", Expr: r.Intn(np), Mask: r.Intn(16), Arg: []string{"", "report", "debug", "both"}[r.Intn(4)]})
 			case x < 9 && r.P(0.3):
 				// Compile with a nil Config (legal: built-ins and literals only)
-				script = append(script, Step{Op: "nilconf", Mask: r.Intn(16), Arg: strconv.Itoa(r.Intn(6))})
+				script = append(script, Step{Op: "nilconf", Mask: r.Intn(16), Arg: strconv.Itoa(r.Intn(8))})
 			case x < 9:
 				script = append(script, Step{Op: "copyconf", Arg: []string{"copy", "extend"}[r.Intn(2)]})
 			default:
